@@ -1195,7 +1195,7 @@ class MonitorSim(enginemod.Engine):
         ]
 
     def quick_runs(self, prop):
-        return 8000
+        return 6000
 
     def make_config(self, prop, tier, rng):
         return make_config(prop, tier, rng)
